@@ -70,14 +70,14 @@ func (*Fn) kind() string     { return "func" }
 func (Nil) kind() string     { return "nil" }
 func (*Opaque) kind() string { return "opaque" }
 
-func mkInt(i Itv) *Int         { return &Int{Itv: i} }
-func constInt(c int64) *Int    { return &Int{Itv: itv64(c, c)} }
-func (v *Int) wrapped() bool   { return len(v.Org) > 0 }
-func (v *Int) String() string  { return v.Itv.String() }
-func (p *Ptr) String() string  { return fmt.Sprintf("&obj%d%v", p.Obj, p.Path) }
-func (p *Ptr) tracked() bool   { return p.Obj != 0 }
-func (p *Ptr) sub(i int) *Ptr  { return &Ptr{p.Obj, append(append([]int(nil), p.Path...), i)} }
-func untrackedPtr() *Ptr       { return &Ptr{} }
+func mkInt(i Itv) *Int          { return &Int{Itv: i} }
+func constInt(c int64) *Int     { return &Int{Itv: itv64(c, c)} }
+func (v *Int) wrapped() bool    { return len(v.Org) > 0 }
+func (v *Int) String() string   { return v.Itv.String() }
+func (p *Ptr) String() string   { return fmt.Sprintf("&obj%d%v", p.Obj, p.Path) }
+func (p *Ptr) tracked() bool    { return p.Obj != 0 }
+func (p *Ptr) sub(i int) *Ptr   { return &Ptr{p.Obj, append(append([]int(nil), p.Path...), i)} }
+func untrackedPtr() *Ptr        { return &Ptr{} }
 func opaque(why string) *Opaque { return &Opaque{Why: why} }
 
 // maxAggLen bounds the size of arrays modelled cell by cell; larger arrays
